@@ -24,6 +24,10 @@ CHECKS = {
   technique="deterministic simulation: seeded scheduler permutes source-set iteration and directory enumeration order (exhaustive for <=4 files), real Project()+correlate() per schedule in forked variants of a cold process, checked against an executable reference model of USE association and for schedule invariance; cold PYTHONHASHSEED runs tie it to the real mechanism",
   text="Seeded search over (generated module graph, file-read schedule): every schedule of every world is compared with an independent reference model of USE association (local conformance per scope + global tables + resolved references) and with every other schedule. Sampling, not proof; exhaustive over file orders only for worlds with <=4 files.",
   note="trusts the ~100-line reference model (fordsim/usemodel.py) and the generator staying inside the quantifier (unique module names, no ambiguous imports, no operator generics); the S1 order seam is a wrapper around ford.fortran_project.find_all_files that only permutes a genuine set return value; forked variants share one cold image"),
+"C12": dict(level="exploration", design="5.1",
+  technique="deterministic simulation: every variant is a cold fully simulated FORD run; the seeded scheduler varies PYTHONHASHSEED, source-set order, directory enumeration order, worker count with SimPool interleavings (real pickle round trip, baton-passed threads), output-directory history (empty/stale/same/regular file) and a simulated clock, one dimension at a time and all at once; oracle = byte-identical output tree and equal outcome vs the reference run; plan-then-world minimisation, twice-cold confirmation, shim-free / heap-pad classification",
+  text="Seeded search over (generated multi-file world incl. equal entity names, unknown-module USE sets, submodules, block data, pages, option swarm) x the schedule/history dimensions the statement names. Each evaluation is a complete real run in a fresh interpreter; output trees are compared byte for byte. Sampling, not proof; file-order permutations exhaustive only for <=3 (quick) / <=4 (thorough) files.",
+  note="SimPool is a model of process_map (validated against the real pool in the thorough tier); all variants share one absolute path, scrubbed environment, ASLR off; mtimes/modes not compared; FORD crashes on project_url+search (outside the claimed properties) so that combination is not generated"),
 }
 m = {"version":1,
  "setup_cmd":"/venv/bin/python -c 'import ford, sys; print(ford.__file__)' && command -v dot setarch >/dev/null && mkdir -p /dev/shm/fordsim",
